@@ -106,6 +106,12 @@ CLAIMS = {
             "Sequential part: every history up to depth 6/7 mixing GenerateNewPublicKey (each possible keystore pick explored as its own operation) with NextAddresses, lock changes, export/delete/import and restart; ordinals are the owning keystore's next external index (consecutive, no gaps/reuse within a keystore lifetime), keys never re-appear at another position, GetPublicKeyOrdinal is stable now and after restart, issuance continues correctly after restart. The concurrent part (two goroutines issuing keys) is decided by the C14 check.",
             "'never returned before' is evaluated per keystore lifetime: deleting a keystore and importing an older export legitimately rolls its counter back",
             "DESIGN.md §C06"),
+    "C17": ("model_checking",
+            "explicit-state search over the real LocalSuperior/LocalCollector code under the quiescence scheduler on a virtual clock",
+            "qsched",
+            "Topology T1 (LocalSuperior, 2 LocalCollectors + 1 connecting late, scripted keepers, real channel capacities): actions = add a broadcast qualities task (<=2), add a targeted proof task, remove a task, a waiter reads one report (<=3 explicit reads), connect / stop a collector, fire the virtual timers due (operation budget 4 quick / 5 thorough, 3/4 timer instants); every order explored with canonical-state pruning. In every state the reports read so far belong to their task, carry the producing collector's id and content and are in slot order per collector; at terminal states every live waiter drains its channel and then no call may be pending, each task reached the keeper of every collector connected while it was current exactly once, a targeted task only its target, nothing panicked. Open finding: report delivery blocks under the task lock on a full result channel.",
+            "relays (RemoteSuperior/RemoteCollector/CollectorPool over connections) are not driven: the property is decided for the local topology only; goroutines woken by the same virtual instant race in real time (replay retried, else capped)",
+            "DESIGN.md §C17"),
     "C18": ("exploration",
             "bounded-exhaustive enumeration of (seed, path) inputs on the real code against an independent BIP32/BIP39 reference",
             "seqx",
